@@ -74,6 +74,12 @@ func evaluate(c Case) (o vev.Outcome) {
 	s := string(c.S)
 	switch c.Prim + "/" + c.Mode {
 	case "etag/identity":
+		// the announced form of a tag matches the tag (whatever characters it holds: commas, quotes, ...)
+		if s != "" {
+			if ok, err := webdav.ConditionalMatch(internal.ETag(s).String()).MatchETag(s); err != nil || !ok {
+				return out("etag", "matchetag", "ConditionalMatch(%q).MatchETag(%q) = %v, %v", internal.ETag(s).String(), s, ok, err)
+			}
+		}
 		e := internal.ETag(s)
 		txt, err := e.MarshalText()
 		if err != nil || string(txt) != e.String() {
@@ -204,6 +210,28 @@ func evaluate(c Case) (o vev.Outcome) {
 				return out("overwrite", "roundtrip", "%v -> %q -> %v, %v", b, internal.FormatOverwrite(b), p, err)
 			}
 		}
+		// end to end: every combination of the two options of Copy and of the one of Move reaches the server's
+		// FileSystem as given (added after seeded change C16-s10: the two header translations are independent)
+		for _, noRec := range []bool{false, true} {
+			for _, noOver := range []bool{false, true} {
+				var gotCopy *webdav.CopyOptions
+				var gotMove *webdav.MoveOptions
+				fs := &optionSpy{onCopy: func(o *webdav.CopyOptions) { gotCopy = o }, onMove: func(o *webdav.MoveOptions) { gotMove = o }}
+				hc, _ := vwire.Client(&webdav.Handler{FileSystem: fs})
+				cl, err := webdav.NewClient(hc, "http://dav.example/")
+				if err != nil {
+					return out("overwrite", "harness", "%v", err)
+				}
+				if err := cl.Copy(context.Background(), "/a", "/b", &webdav.CopyOptions{NoRecursive: noRec, NoOverwrite: noOver}); err != nil || gotCopy == nil || gotCopy.NoRecursive != noRec || gotCopy.NoOverwrite != noOver {
+					return out("overwrite", "copy-options", "Copy with NoRecursive=%v NoOverwrite=%v reached the FileSystem as %+v (%v)", noRec, noOver, gotCopy, err)
+				}
+				if !noRec {
+					if err := cl.Move(context.Background(), "/a", "/b", &webdav.MoveOptions{NoOverwrite: noOver}); err != nil || gotMove == nil || gotMove.NoOverwrite != noOver {
+						return out("overwrite", "move-options", "Move with NoOverwrite=%v reached the FileSystem as %+v (%v)", noOver, gotMove, err)
+					}
+				}
+			}
+		}
 	case "overwrite/reject":
 		if v, err := internal.ParseOverwrite(s); err == nil {
 			return out("overwrite", "accepted-outside-grammar", "ParseOverwrite(%q) = %v without error", s, v)
@@ -263,6 +291,23 @@ func evaluate(c Case) (o vev.Outcome) {
 		return vev.Outcome{Sig: "bad-case", Msg: "unknown case " + c.Prim + "/" + c.Mode}
 	}
 	return vev.Outcome{}
+}
+
+// optionSpy is a FileSystem that only records the options of Copy and Move.
+type optionSpy struct {
+	webdav.FileSystem
+	onCopy func(*webdav.CopyOptions)
+	onMove func(*webdav.MoveOptions)
+}
+
+func (f *optionSpy) Copy(ctx context.Context, name, dest string, o *webdav.CopyOptions) (bool, error) {
+	f.onCopy(o)
+	return true, nil
+}
+
+func (f *optionSpy) Move(ctx context.Context, name, dest string, o *webdav.MoveOptions) (bool, error) {
+	f.onMove(o)
+	return true, nil
 }
 
 var timeRangeRe = regexp.MustCompile(`<[A-Za-z0-9:]*time-range[^>]*>`)
@@ -382,7 +427,7 @@ var rejects = map[string][]string{
 	"href":      {"%zz", "/a%", "/a%2", "/%g1", "http://[::1", "http://h:abc/", "/a\x7f", "/a\nb", "http://h\x00/", "http://[fe80::1%en0]/", "/a%\x00", ":", "1http://h/", "/\x00", "\x01"},
 }
 
-var caldateRejects = []string{"20060102T150405", "20060102T150405+0100", "20060102", "2006-01-02T15:04:05Z", "20060102T1504Z", "", "20060102T150405z", "20060102t150405Z", "20060132T150405Z", "20060102T250000Z", "20060102T150405ZZ", " 20060102T150405Z", "20060102T150405Z ", "now", "1136214245", "20060102T150405.5Z", "２００６0102T150405Z"}
+var caldateRejects = []string{"20060102T150405", "20060102T150405+0100", "20060102", "2006-01-02T15:04:05Z", "20060102T1504Z", "", "20060102T150405z", "20060102t150405Z", "20060132T150405Z", "20060102T250000Z", "20060102T150405ZZ", " 20060102T150405Z", "20060102T150405Z ", "now", "1136214245", "20060102T150405.5Z", "２００６0102T150405Z", "20060102T150405.0Z", "20060102T150405,0Z", "20060102T150405.000Z", "20060102T150405.0000000001Z", "20060102T150405.Z"}
 
 func TestEnumerated(t *testing.T) {
 	if vev.ReplayFile() != "" {
